@@ -145,7 +145,7 @@ impl Property for C02 {
         ]
     }
     fn cases(&self, tier: Tier) -> usize {
-        tier.pick(1500, 40_000)
+        tier.pick(4000, 40_000)
     }
     fn strategy(&self, tier: Tier) -> BoxedStrategy<Case> {
         strategy(tier)
